@@ -438,6 +438,8 @@ def build_composite(sx, kind):
         from classy_blocks.construct.assemblies.joints import CuspCylinder
 
         return CuspCylinder([0.5, -1, 0.25], [0.5, -1, 3.25], [1.5, -1, 0.25], math.pi / 4, math.pi / 6)
+    if kind == "RevolvedShape":
+        return cb.RevolvedShape(cb.Grid([0.5, 0.2, 0], [1.5, 1.7, 0], 1, 2), math.pi / 3, [0, -1, 0], [-1.0, 0, 0.25])
     if kind == "ExtrudedShape":
         return cb.ExtrudedShape(cb.OneCoreDisk([0.5, -1, 0.25], [1.5, -1, 0.25], [0, 0, 1]), [0, 0, 1.5])
     raise KeyError(kind)
@@ -594,8 +596,8 @@ def jobs(tier, seed):
         js.append({"name": f"{kind}.copy", "fn": "run_copy", "params": {"kind": kind, "nsym": 3},
                    "budget_s": 200 if tier == "quick" else 1500})
     js.append({"name": "helpers", "fn": "run_helpers", "budget_s": 100})
-    comps = ["Cylinder", "ExtrudedRing", "RevolvedRing", "Hemisphere", "ExtrudedStack", "LJoint"] if tier == "quick" else \
-        ["Cylinder", "ExtrudedRing", "RevolvedRing", "Frustum", "Elbow", "Hemisphere", "ExtrudedStack", "RevolvedStack", "LJoint",
+    comps = ["Cylinder", "ExtrudedRing", "RevolvedRing", "RevolvedShape", "Hemisphere", "ExtrudedStack", "LJoint"] if tier == "quick" else \
+        ["Cylinder", "ExtrudedRing", "RevolvedRing", "RevolvedShape", "Frustum", "Elbow", "Hemisphere", "ExtrudedStack", "RevolvedStack", "LJoint",
          "ExtrudedShape", "Assembly", "CuspCylinder", "TJoint"]
     for kind in comps:
         for tk in ("translate", "rotate", "scale"):
